@@ -620,9 +620,15 @@ def fhex(w, scale):
     return float(Fraction(w) * pow2(-scale)).hex()
 
 
+ROUTE_DEQUE_THREADS = 3      # this thread count runs through the other C++ route (command SPD of the harness)
+
+
 def sp_line(case, threads, trace):
     N = case["N"]
-    t = ["SP", str(threads), str(trace), str(N)]
+    # wave 4: the 3-thread configuration of every case reaches the routine by another C++ route: samples in a
+    # std::deque (random access but not contiguous) holding object ids that differ from their positions
+    cmd = "SPD" if (threads == ROUTE_DEQUE_THREADS and not trace) else "SP"
+    t = [cmd, str(threads), str(trace), str(N)]
     for row in case["nbrs"]:
         t.append(str(len(row)))
         t += [str(v) for v in row]
